@@ -13,7 +13,9 @@ files the pickled state refers to, for a weights file `n = 0`) or `torn k`
 (the first `k` bytes of something, `k` < its full length — a torn file).
 Assumed (not modelled further): `shutil.move/os.replace/os.rename` within one
 directory are atomic renames; a killed writer leaves a prefix of what it was
-writing; unpickling a prefix raises `EOFError/UnpicklingError`; `torch.load` of
+writing, and a file written through a handle that was not yet closed keeps only
+an arbitrary prefix (user-space buffers are lost) under whatever name it has at
+that moment; unpickling a prefix raises `EOFError/UnpicklingError`; `torch.load` of
 a prefix raises one of `EOFError`, `UnpicklingError`, `RuntimeError`, `OSError`
 depending on where the zip container was cut (observed: 0 bytes, 1–3 bytes, and
 alternating ranges above) — which one is an INPUT of the model (`Content.torn k e`).
@@ -119,21 +121,40 @@ def dyn (fam : Fam) (d : Dump) : List Stmt → FS → List Op
     if fs.has ⟨fam, p⟩ then .existsCheck p :: (body ++ dyn fam d r (runOps fam d body fs))
     else .existsCheck p :: dyn fam d r fs
 
+/-- Durability: bytes written through an open handle sit partly in the writer's user-space
+buffer until the handle is closed.  `pend` tracks the file (by its CURRENT name in the
+family) that has been written through a handle that is still open: `write` sets it,
+`close` clears it, a rename of that file carries it to the new name. -/
+def opPend : Op → Option Suffix → Option Suffix
+  | .write p, _ => some p
+  | .close _, _ => none
+  | .move a b, some s => if s = a then some b else if s = b then none else some s
+  | _, q => q
+
+/-- what a kill leaves of a file whose handle was still open: only the first `f` bytes
+(`f` = what had been flushed; ANY value — the whole file only if `f ≥ len`) -/
+def settle (fam : Fam) (d : Dump) (f : Nat) (pend : Option Suffix) (fs : FS) : FS :=
+  match pend with
+  | none => fs
+  | some s => fs.set ⟨fam, s⟩ (if f < d.len then .torn f d.exc else .complete d.v d.n)
+
 /-- a crash point: `j` operations completed; `inside = some k`: the next operation
-was started and `k` bytes were written; `inside = none`: it was not started -/
+was started and `k` bytes were written; `inside = none`: it was not started;
+`flushed`: how many bytes of a written-but-not-yet-closed file had reached the disk -/
 structure CrashPt where
   j : Nat
   inside : Option Nat
+  flushed : Nat
 deriving Repr, DecidableEq
 
-def crashOps (fam : Fam) (d : Dump) : List Op → Nat → Option Nat → FS → FS
-  | [], _, _, fs => fs
-  | _ :: _, 0, none, fs => fs
-  | o :: _, 0, some k, fs => opCrash fam d k o fs
-  | o :: r, j + 1, ins, fs => crashOps fam d r j ins (opRun fam d o fs)
+def crashOps (fam : Fam) (d : Dump) (f : Nat) : List Op → Nat → Option Nat → Option Suffix → FS → FS
+  | [], _, _, _, fs => fs      -- the protocol had finished (every handle closed)
+  | _ :: _, 0, none, pend, fs => settle fam d f pend fs
+  | o :: _, 0, some k, pend, fs => settle fam d f pend (opCrash fam d k o fs)
+  | o :: r, j + 1, ins, pend, fs => crashOps fam d f r j ins (opPend o pend) (opRun fam d o fs)
 
 def crashState (prog : List Stmt) (fam : Fam) (d : Dump) (fs : FS) (cp : CrashPt) : FS :=
-  crashOps fam d (dyn fam d prog fs) cp.j cp.inside fs
+  crashOps fam d cp.flushed (dyn fam d prog fs) cp.j cp.inside none fs
 
 def runProg (prog : List Stmt) (fam : Fam) (d : Dump) (fs : FS) : FS :=
   runOps fam d (dyn fam d prog fs) fs
@@ -342,7 +363,7 @@ def allowed (hist : List Ev) : List (Option Nat) := allowedFrom [none] hist
 
 /-- a weights save that is killed is killed between operations, never inside the write -/
 def Ev.noTornTrain : Ev → Bool
-  | .train _ _ _ (some ⟨_, some _⟩) => false
+  | .train _ _ _ (some ⟨_, some _, _⟩) => false
   | _ => true
 
 /-- is the handler enough to survive a torn (or torn-and-rotated) weights file? -/
